@@ -13,8 +13,12 @@
 EXTENDS Integers, Sequences, TLC
 St0(n) == [running |-> [c \in 1..n |-> 0], done |-> [c \in 1..n |-> 0], dead |-> FALSE, msgs |-> <<>>]
 \* returns [ok, why, st]
+\* total: an event that names a connection or message nobody sent (a handler was given a message made
+\* of torn bytes) is itself a violation, not an evaluation error
 Step(st, e) ==
-  CASE e.ev = "enter" ->
+  CASE e.ev \in {"enter", "exit"} /\ (e.c \notin DOMAIN st.running \/ e.i < 1) ->
+         [ok |-> FALSE, why |-> "message-nobody-sent", st |-> st]
+    [] e.ev = "enter" ->
          IF st.running[e.c] # 0 THEN [ok |-> FALSE, why |-> "entered-while-previous-running", st |-> st]
          ELSE IF e.i # st.done[e.c] + 1 THEN [ok |-> FALSE, why |-> "out-of-order", st |-> st]
          ELSE [ok |-> TRUE, why |-> "", st |-> [st EXCEPT !.running[e.c] = e.i]]
